@@ -60,7 +60,7 @@ def run(ck):
     ringcheck.run(ck, quick)
     sysmodel.run_for(ck, "C03")
     qks = ["BB:256:256", "BB:512:512", "UB:256:1024", "UB:128:4096"]
-    n = 60 if quick else 1500
+    n = 200 if quick else 3000
     scen = []
     for i in range(n):
         qk = qks[i % len(qks)]
